@@ -89,7 +89,7 @@ benign)
   for d in benign/*/; do
     id=$(python3 -c "import json;print(json.load(open('$d/meta.json'))['id'])")
     if [ $# -gt 0 ] && ! echo " $* " | grep -q " $id "; then continue; fi
-    props=$(python3 -c "import json;print(' '.join(json.load(open('$d/meta.json'))['checks_run']))")
+    props=$(python3 -c "import json;print(' '.join(json.load(open('$d/meta.json'))['checks_run'][:${BENIGN_MAX_CHECKS:-99}]))")
     W=$(mktemp -d /dev/shm/verif-benign.XXXXXX)
     git -C /repo worktree add -q --detach $W HEAD 2>/dev/null || { echo "worktree failed"; exit 2; }
     if ! git -C $W apply $PWD/$d/patch.diff 2>/dev/null; then echo "SKIP (does not apply): $id"; git -C /repo worktree remove --force $W; continue; fi
